@@ -7,6 +7,7 @@ VERIF = os.path.dirname(os.path.abspath(__file__))
 
 # (property, obligation regex, witness name, kind)   kind: "public" (replay crate) | "private" (scratch copy + cfg(test) module)
 WITNESSES = [
+    ("C13", r"zone_names/Zone::serialise_domain/", "c13_label_at_sign_round_trip", "public"),
     ("C14", r"hosts_text/parse_line/(inv:a_comment_starts_wherever_the_hash_appears_and_ends_the_field_before_it|post:a_line_maps_its_address)", "c14_name_directly_followed_by_comment", "public"),
     ("C03", r"wire_decode/(Message::deserialise|Message::from_octets)/post:accepts_exactly_the_well_formed_messages|wire_decode/ResourceRecord::deserialise/post:accepts_exactly_the_well_formed_records", "c03_minimal_records_accepted", "public"),
     ("C16", r"names/DomainName::from_relative_dotted_string/post:name_joined_to_an_origin_is_well_formed_or_rejected", "c16_relative_join_over_255", "public"),
